@@ -1,5 +1,5 @@
 import Soa.Model.SkelView
-import Soa.Lemmas.SkelRead
+import Soa.Lemmas.SkelRead.C05
 /-!
 # Views, references and pointer bundles: the extracted methods act uniformly on every field
 
